@@ -156,9 +156,11 @@ def gen_cases(rng, n, quick):
     n_hist = (n * 9) // 20
     n_tmpl = min(n_hist // 3, 3 * len(ac.QKINDS) * len(ac.TKINDS))
     n_big = 8 if quick else 60
+    n_sliver = 16 if quick else 160
     cases = [av.vary(rng, ac.gen_hist_template(rng, i)) for i in range(n_tmpl)]
     cases += [av.vary(rng, av.gen_big(rng, quick)) for _ in range(n_big)]
-    cases += [av.vary(rng, ac.gen_hist_case(rng)) for _ in range(n_hist - n_tmpl - n_big)]
+    cases += [av.vary(rng, av.gen_sliver2(rng)) for _ in range(n_sliver)]
+    cases += [av.vary(rng, ac.gen_hist_case(rng)) for _ in range(n_hist - n_tmpl - n_big - n_sliver)]
     cases += [ac.gen_case(rng) for _ in range(n - n_hist)]
     return cases
 
